@@ -57,6 +57,9 @@ def cases(tier):
                         pls = [("pl2", PL2[k % len(PL2)]), ("pl", PL3[k % len(PL3)]), ("pl", PL3[(k + 3) % len(PL3)])]
                     for key, pl in pls:
                         out.append({"poly": [list(p) for p in c], "start": st, "normal": nspec, key: pl})
+                    if k % 8 == 0:
+                        tp = A.placements_tiny()
+                        out.append({"poly": [list(p) for p in c], "start": st, "normal": nspec, "pl": tp[k // 8 % len(tp)]})
     return out
 
 
